@@ -10,5 +10,5 @@ VARIABLES stage, i, j
 Init == stage = 0 /\ i = 1 /\ j = 1
 Pick == stage = 0 /\ stage' = 1 /\ \E x, y \in 1..Len(Universe) : i' = x /\ j' = y
 Spec == Init /\ [][Pick]_<<stage, i, j>>
-Emit == stage = 1 => PrintT(<<"CASE", ToJson([a |-> TextOf(i), b |-> TextOf(j), eq |-> SassEq(i, j)])>>)
+Emit == stage = 1 => PrintT(<<"CASE", ToJson([a |-> TextOf(i), b |-> TextOf(j), eq |-> SassEq(i, j), bclass |-> ClassOf(j)])>>)
 =============================================================================
